@@ -212,6 +212,7 @@ public:
         while( my_size < MaxCapacity && is_divisible(max_depth) ) {
             depth_t prev = my_head;
             my_head = (my_head + 1) % MaxCapacity;
+            if (my_head < prev) { __TBB_VERIF_PROBE("range_vector:wrap"); }
             new(my_pool.begin()+my_head) T(my_pool.begin()[prev]); // copy TODO: std::move?
             my_pool.begin()[prev].~T(); // instead of assignment
             new(my_pool.begin()+prev) T(my_pool.begin()[my_head], detail::split()); // do 'inverse' split
@@ -227,6 +228,7 @@ public:
     }
     void pop_front() {
         __TBB_ASSERT(my_size > 0, "range_vector::pop_front() with empty size");
+        __TBB_VERIF_PROBE("range_vector:pop_front");
         my_pool.begin()[my_tail].~T();
         my_size--;
         my_tail = (my_tail + 1) % MaxCapacity;
